@@ -586,12 +586,14 @@ theorem createLoop_no_sketch_panic (t : TinyLFU) (wf : t.fc.WF) (size : Nat) (w 
             · simp
             · simp only []
               split
-              · rename_i e he
-                intro hc
-                simp only [Except.error.injEq] at hc
-                subst hc
-                exact fillSample_no_sketch_panic t wf _ _ _ _ he
-              · exact ih _ _ _ _ _
+              · simp
+              · split
+                · rename_i e he
+                  intro hc
+                  simp only [Except.error.injEq] at hc
+                  subst hc
+                  exact fillSample_no_sketch_panic t wf _ _ _ _ he
+                · exact ih _ _ _ _ _
 
 theorem maybeAdd_no_sketch_panic (t : TinyLFU) (wf : t.fc.WF) (size : Nat) (a : Adm) (id key hash : Nat) (w : Int)
     (o : Oracle) : maybeAdd t size a id key hash w o ≠ .error sketchPanic := by
@@ -599,6 +601,8 @@ theorem maybeAdd_no_sketch_panic (t : TinyLFU) (wf : t.fc.WF) (size : Nat) (a : 
   split
   · simp
   · split
+    · simp
+    split
     · simp
     · split
       · rename_i e he
@@ -645,17 +649,22 @@ theorem workerFinish_isOk (h : Option Nat) (kind : String) (r : Exec × Oracle) 
   obtain ⟨r, o⟩ := r
   cases r <;> exact ⟨_, rfl⟩
 
-/-- a put executed by the worker panics only in `now + ttl`; it never touches the `worker` field;
+/-- a put executed by the worker panics only in `now + ttl` and in `max_weight - weight_used` (`hno`: admission does not end
+    in that overflow — `maybeAdd_no_overflow` where the accounting is in order); it never touches the `worker` field;
     its only sketch-related failure is excluded by well-formedness -/
 theorem workerPut_done {s : State} {id hash k v : Nat} {w : Int} {ttl : Option Nat} {o o' : Oracle} {r : Exec}
     (hadd : ∀ t, ttl = some t → ∃ x, addTime s.now t = some x)
+    (hno : ∀ res, maybeAdd s.lfu s.cfg.sampleSize s.adm id k hash w o = .ok res → res.overflow = false)
     (h : workerPut s id hash w k v ttl o = .ok (r, o')) : r.isDone = true ∧ r.state.worker = s.worker := by
   unfold workerPut at h
   split at h
   · simp only [Except.ok.injEq, Prod.mk.injEq] at h; obtain ⟨rfl, _⟩ := h; exact ⟨rfl, rfl⟩
   · split at h
     · cases h
-    · simp only [] at h
+    · rename_i res hres
+      simp only [] at h
+      rw [hno res hres] at h
+      simp only [Bool.false_eq_true, if_false] at h
       split at h
       · split at h
         · simp only [Except.ok.injEq, Prod.mk.injEq] at h; obtain ⟨rfl, _⟩ := h
@@ -679,6 +688,8 @@ theorem workerPut_no_sketch_panic (s : State) (wf : s.lfu.fc.WF) (id hash k v : 
       subst hc
       exact maybeAdd_no_sketch_panic _ wf _ _ _ _ _ _ _ he
     · simp only []
+      split
+      · simp
       split
       · split
         · simp
